@@ -64,7 +64,9 @@ func (p paramSearch) Visit(node ast.Node) astutils.Visitor {
 				if !ok {
 					continue
 				}
-				// TODO: Out-of-bounds panic
+				if n.Cols == nil || i >= len(n.Cols.Items) {
+					continue
+				}
 				*p.refs = append(*p.refs, paramRef{parent: n.Cols.Items[i], ref: ref, rv: n.Relation})
 				p.seen[ref.Location] = struct{}{}
 			}
@@ -78,7 +80,9 @@ func (p paramSearch) Visit(node ast.Node) astutils.Visitor {
 					if !ok {
 						continue
 					}
-					// TODO: Out-of-bounds panic
+					if n.Cols == nil || i >= len(n.Cols.Items) {
+						continue
+					}
 					*p.refs = append(*p.refs, paramRef{parent: n.Cols.Items[i], ref: ref, rv: n.Relation})
 					p.seen[ref.Location] = struct{}{}
 				}
